@@ -128,7 +128,7 @@ impl Check for C15 {
     }
     fn default_runs(&self, tier: Tier) -> u64 {
         match tier {
-            Tier::Quick => 12000,
+            Tier::Quick => 16000,
             Tier::Thorough => 600000,
         }
     }
